@@ -47,6 +47,12 @@ long long budgetOf(const uci::GoRec& g) {
     return -1;
 }
 
+long workTicksAfter(const sess::History& h, long long tNs, long upToTicks) {
+    const std::vector<long long>& v = h.workTickTimes;
+    long idx = (long)(std::lower_bound(v.begin(), v.end(), tNs) - v.begin());
+    return std::max(0L, upToTicks - idx);
+}
+
 long ticksAfter(const sess::History& h, long long tNs, long upToTicks) {
     // number of engine main-search ticks whose completion time is >= tNs and that happened before tick count upToTicks
     const std::vector<long long>& v = h.mainTickTimes;
@@ -66,6 +72,7 @@ void checkTime(const sess::History& h, const uci::Model& m, const Scenario& sc, 
         if (gs.seqRead == 0) continue;
         const long long B = budgetOf(g);
         const long N = pollInterval(g);
+        const long WN = 2; // polling intervals of the tablebase generator: the one in progress plus the one that notices
         std::string ctx = " [go #" + std::to_string(k) + " '" + gs.text + "' stm=" + (g.root.isWhiteMove() ? "w" : "b") +
                           " BufferTime=" + std::to_string(g.bufferTime) + " poll=" + std::to_string(N) + "]";
         // limit events between the reading of this go and its bestmove
@@ -101,6 +108,12 @@ void checkTime(const sess::History& h, const uci::Model& m, const Scenario& sc, 
                 res.violate("C06", "deadline-overrun", std::to_string(after) + " main-search nodes after the budget of " + std::to_string(B) +
                             " ms was used up (allowed: one polling interval = " + std::to_string(N) + "), bestmove " +
                             std::to_string((bm.t - startEv->start * 1000000LL) / 1000000) + " ms after the go" + ctx);
+            long wafter = workTicksAfter(h, Dns, bm.workTicks);
+            if (wafter > res.counters["max_work_ticks_after_deadline"]) res.counters["max_work_ticks_after_deadline"] = wafter;
+            if (wafter > WN)
+                res.violate("C06", "deadline-overrun", std::to_string(wafter) + " polling intervals of the on-demand tablebase generation after the budget of " +
+                            std::to_string(B) + " ms was used up (allowed " + std::to_string(WN) + "), bestmove " +
+                            std::to_string((bm.t - startEv->start * 1000000LL) / 1000000) + " ms after the go" + ctx);
             if (g.legal.size() == 1) res.counters["probe_single_move_timed"]++;
         }
         // ---- (3) stop / ponderhit
@@ -108,10 +121,23 @@ void checkTime(const sess::History& h, const uci::Model& m, const Scenario& sc, 
             bool isStop = e->minT == 0 && e->maxT == 0;
             long nodesAfter = bm.mainTicks - e->mainTicks;
             bool engineIdle = bm.allTicks == e->allTicks; // no node at all was searched after the event
+            long workAfter = bm.workTicks - e->workTicks; // tablebase generator polling intervals after the event
+            if (workAfter > 0) res.counters["probe_event_inside_tb_generation"]++;
             long long dt = bm.t - e->t;
             if (isStop) {
                 res.counters["stop_checked"]++;
-                if (nodesAfter > N + 2)
+                if (engineIdle) {
+                    // no node was searched after the stop: the engine thread was before its first node (e.g. inside the
+                    // on-demand tablebase generation, whose polling interval is one clock read) or waiting to be released
+                    long cr = bm.engClockReads - e->engClockReads;
+                    if (cr > res.counters["max_engine_clock_reads_after_stop_without_nodes"]) res.counters["max_engine_clock_reads_after_stop_without_nodes"] = cr;
+                    if (startEv->allTicks == e->allTicks) res.counters["probe_stop_before_first_node"]++;
+                }
+                if (workAfter > res.counters["max_work_ticks_after_stop"]) res.counters["max_work_ticks_after_stop"] = workAfter;
+                if (workAfter > WN)
+                    res.violate("C06", "stop-latency", std::to_string(workAfter) + " polling intervals of the on-demand tablebase generation between stop and bestmove (allowed " +
+                                std::to_string(WN) + ")" + ctx);
+                else if (nodesAfter > N + 2)
                     res.violate("C06", "stop-latency", std::to_string(nodesAfter) + " main-search nodes between stop and bestmove (allowed " + std::to_string(N) + ")" + ctx);
                 else if (engineIdle && dt > 10000000LL + slackNs + injected && (g.ponderKw || g.modelInfinite) && effectiveMaxNPS(g) == 0) {
                     // engine was not searching: it sits in the 10 ms ponder/infinite wait loop
@@ -127,15 +153,22 @@ void checkTime(const sess::History& h, const uci::Model& m, const Scenario& sc, 
                     bool exhausted = elapsed >= e->maxT * 1000000LL;
                     if (exhausted) {
                         res.counters["probe_ponderhit_limits_exhausted"]++;
-                        if (nodesAfter > N + 2)
+                        if (workAfter > res.counters["max_work_ticks_after_exhausted_ponderhit"]) res.counters["max_work_ticks_after_exhausted_ponderhit"] = workAfter;
+                        if (workAfter > WN)
+                            res.violate("C06", "ponderhit-latency", std::to_string(workAfter) + " polling intervals of the on-demand tablebase generation after ponderhit with exhausted limits (allowed " +
+                                        std::to_string(WN) + ")" + ctx);
+                        else if (nodesAfter > N + 2)
                             res.violate("C06", "ponderhit-latency", std::to_string(nodesAfter) + " main-search nodes after ponderhit with exhausted limits" + ctx);
                         else if (engineIdle && dt > 10000000LL + slackNs + injected && effectiveMaxNPS(g) == 0)
                             res.violate("C06", "ponderhit-latency", "bestmove " + std::to_string(dt / 1000) + " us after ponderhit although limits were exhausted and the search idle" + ctx);
                     }
                     long long Dns = e->t + B * 1000000LL + injected;
                     long after = ticksAfter(h, Dns, bm.mainTicks);
+                    long wafter = workTicksAfter(h, Dns, bm.workTicks);
                     if (after > N + 2)
                         res.violate("C06", "deadline-overrun", std::to_string(after) + " main-search nodes after ponderhit + budget" + ctx);
+                    else if (wafter > WN)
+                        res.violate("C06", "deadline-overrun", std::to_string(wafter) + " polling intervals of the on-demand tablebase generation after ponderhit + budget" + ctx);
                 }
             }
         }
@@ -177,7 +210,9 @@ void genC06(uint64_t seed, int tier, Scenario& sc) {
     int nGo = (int)r.range(1, 3);
     for (int i = 0; i < nGo; i++) {
         int pk = (int)r.below(10);
+        bool tbRoot = false;
         if (pk < 2) { if (!pg::sparseWithMoveCount(r, 1, gp)) pg::anyPosition(r, gp); }
+        else if (pk < 4) { tbRoot = pg::sparse(r, r.chance(0.8) ? 3 : 4, true, 0, gp); if (!tbRoot) pg::anyPosition(r, gp); } // on-demand tablebase roots
         else pg::anyPosition(r, gp);
         pushSend(sc, gp.positionCmd);
         bool w = gp.pos.isWhiteMove();
@@ -199,6 +234,18 @@ void genC06(uint64_t seed, int tier, Scenario& sc) {
             }
             if (r.chance(0.6)) go += " movestogo " + std::to_string(r.chance(0.3) ? r.range(0, 2) : r.range(0, 100));
             B = mine;
+        }
+        if (tbRoot && r.chance(0.7)) {
+            // a search without depth/node limit on a <=4-man pawnless root builds the table first; stop lands inside it
+            int kind = (int)r.below(3);
+            long long clk = r.logRange(1, kind == 2 ? maxTimeMs : 600000); // after ponderhit the clock is really used
+            go = kind == 0 ? "go infinite" : "go ponder wtime " + std::to_string(clk) + " btime " + std::to_string(clk);
+            pushSend(sc, go);
+            if (r.chance(0.5)) sc.ops.push_back("wait_steps " + std::to_string(r.logRange(1, 400)));
+            else sc.ops.push_back("wait_us " + std::to_string(r.logRange(1, 4000000)));
+            pushSend(sc, kind == 2 ? "ponderhit" : "stop");
+            sc.ops.push_back("wait_bestmove");
+            continue;
         }
         pushSend(sc, go);
         long long cms = std::max(1LL, cost / 1000); // node cost in us
